@@ -729,6 +729,13 @@ class Exec(EvalMixin, CallMixin):
                 assume_typed(se, t_, k_)
         if desc is not None:
             se.assume(z3.Not(desc["guard"](se)))
+            # after `for x in <tuple or frozen list>:` that is not left by break and whose body does not rebind x, x is
+            # the last element (CPython semantics of the loop target), if there was one
+            if desc.get("last") and isinstance(node, ast.For) and isinstance(node.target, ast.Name) \
+                    and node.target.id not in self.assigned_names(node.body) \
+                    and not any(isinstance(n_, ast.Break) for n_ in ast.walk(node)) and node.target.id in se.env:
+                n_, el_ = desc["last"](se)
+                se.assume(z3.Implies(n_ > 0, se.env[node.target.id].t == el_))
         else:
             se.assume(z3.Not(self.truth(se, self.ev(node.test, se, CODE))))
         if refined:
@@ -867,6 +874,12 @@ class Exec(EvalMixin, CallMixin):
                 t = ops.l_get(view or s, r, k_of(s))
                 assume_typed(s, t, ek, hb)
                 bind_names(s, tgt, SV(t, ek, hb))
+            immutable = (k.head == "vtuple") or (hb is not None)
+
+            def last(s):
+                n_ = ops.l_len(view or s, r)
+                return n_, ops.l_get(view or s, r, n_ - 1)
             return {"guard": lambda s: k_of(s) < ops.l_len(view or s, r), "bind": bind,
-                    "bound": lambda s: ops.l_len(view or s, r), "enum": base}
+                    "bound": lambda s: ops.l_len(view or s, r), "enum": base,
+                    "last": last if immutable else None}
         raise OutOfSubset("for loop over kind %r (line %s)" % (base.k, node.lineno))
